@@ -525,6 +525,10 @@ def case_user_mutation(B, cfg):
         B.note('mutation', 'not applicable: %r' % (e,))
         return
     fresh = Obj(B, kind, tag='a')
+    before = None
+    if hasattr(um, 'calls') and hasattr(um, 'has_sensitivities'):
+        before = (len(um.calls), bool(um.has_sensitivities()),
+                  tuple(um.outputs()), tuple(um.parameters()))
     for op in ('v', 's', 'v'):
         if op not in o.ops:
             continue
@@ -536,6 +540,14 @@ def case_user_mutation(B, cfg):
         for k, (a, b) in enumerate(zip(res, ref)):
             B.eq('after user-model %s: %s result[%d] unchanged'
                  % (mut, op, k), a, b)
+    if before is not None:
+        # ... and the evaluations did not touch the user's own model object
+        # (no simulation on it, its sensitivity switch, outputs and names as
+        # the user left them)
+        now = (len(um.calls), bool(um.has_sensitivities()),
+               tuple(um.outputs()), tuple(um.parameters()))
+        B.fact('evaluations leave the user\'s model object untouched',
+               now == before, '%r vs %r' % (now, before))
 
 
 def case_shared_models(B, cfg):
@@ -636,6 +648,14 @@ def jobs(tier):
         for mut in ('rename', 'regimen', 'outputs', 'sens', 'administration'):
             out.append(('user_mutation', 'case_user_mutation',
                         dict(kind=kind, mutation=mut), FACADE))
+    for kind in ('filterpost', 'll_sym', 'hier', 'pm', 'll_red_mm'):
+        for mut in ('none', 'sens', 'rename', 'user_simulate'):
+            if mut == 'user_simulate' and kind != 'filterpost':
+                continue
+            out.append(('user_mutation', 'case_user_mutation',
+                        dict(kind=kind, mutation=mut),
+                        {'diffcheck': False, 'facts_final': True,
+                         'confirm_by_terms': True}))
     for mut in ('refix_em', 'release_em', 'rename', 'sens'):
         out.append(('user_mutation', 'case_user_mutation',
                     dict(kind='ll_red_em', mutation=mut),
